@@ -254,6 +254,29 @@ static uint64_t ff_value(struct uref *ff)
     return v;
 }
 
+/* --hwdef 1: the ubuf_mgr request proposes a definition no memory-backed manager can serve ("pic.hw."), and an application probe
+ * placed after all the fixture's probes provides it: the request has to travel past uprobe_ubuf_mem to get there */
+static int g_hwdef;
+static struct uprobe g_tail;
+static int g_tail_answers;
+static int tail_throw(struct uprobe *uprobe, struct upipe *upipe, int event, va_list args)
+{
+    if (event == UPROBE_PROVIDE_REQUEST) {
+        va_list ac;
+        va_copy(ac, args);
+        struct urequest *q = va_arg(ac, struct urequest *);
+        va_end(ac);
+        const char *def = NULL;
+        if (q->type == UREQUEST_UBUF_MGR && q->uref != NULL && ubase_check(uref_flow_get_def(q->uref, &def)) && !strncmp(def, "pic.hw.", 7)) {
+            struct uref *ff = uref_dup(q->uref);
+            assert(ff);
+            g_tail_answers++;
+            return urequest_provide_ubuf_mgr(q, ubuf_mgr_use(g_cur->fx.ubuf_mgr), ff);
+        }
+    }
+    return uprobe_throw_next(uprobe, upipe, event, args);
+}
+
 static int head_provide(struct urequest *urequest, va_list args)
 {
     struct st *st = g_cur;
@@ -381,12 +404,16 @@ static void *init(void)
     struct st *st = calloc(1, sizeof(*st));
     g_cur = st;
     struct px_cfg cfg = {.pool = g_pool, .prepend = 0, .append = 0, .align = 0};
+    if (g_hwdef) {
+        uprobe_init(&g_tail, tail_throw, NULL);
+        cfg.tail_probe = &g_tail;
+    }
     px_fix_init(&st->fx, &cfg);
     struct px_fix *fx = &st->fx;
     for (int r = 0; r < NREQ; r++) {
         struct uref *ff = NULL;
         if (IN_ALPHABET(r) && (req_types[r] == UREQUEST_FLOW_FORMAT || req_types[r] == UREQUEST_UBUF_MGR)) {
-            ff = px_flow(fx, "block.", 7);
+            ff = px_flow(fx, g_hwdef && req_types[r] == UREQUEST_UBUF_MGR ? "pic.hw." : "block.", 7);
             assert(ff);
         }
         urequest_init(&st->req[r], req_types[r], ff, head_provide, NULL);
@@ -1006,6 +1033,8 @@ int main(int argc, char **argv)
             reqs = argv[++i];
         else if (!strcmp(argv[i], "--tprov") && i + 1 < argc)
             g_tprov = atoi(argv[++i]);
+        else if (!strcmp(argv[i], "--hwdef") && i + 1 < argc)
+            g_hwdef = atoi(argv[++i]);
         else if (!strcmp(argv[i], "--cb") && i + 1 < argc)
             g_cbmode = atoi(argv[++i]);
         else if (!strcmp(argv[i], "--env") && i + 1 < argc)
